@@ -56,17 +56,7 @@ theorem alloc_paired (u : User) (ops : List Op) (pre post : List Ev) (id sz : Na
     cases e <;> simp [Mon.step] at h1
     case readCb n buf bytes => exact ⟨n, bytes, post', by rw [h1.2]⟩
 
-/-- alloc ids are the call numbers 0,1,2,…: no buffer id is handed out twice -/
-def allocCount : List Ev → Nat
-  | [] => 0
-  | .alloc _ _ :: t => allocCount t + 1
-  | _ :: t => allocCount t
-
-theorem fold_nAl (l : List Ev) : ∀ m : Mon, (l.foldl Mon.step m).nAl = m.nAl + allocCount l := by
-  induction l with
-  | nil => intro m; simp [allocCount]
-  | cons e t ih => intro m; cases e <;> simp [ih, Mon.step, allocCount] <;> omega
-
+/-- alloc ids are the call numbers 0,1,2,… (`allocCount pre` = alloc_cb calls so far): no buffer id is handed out twice -/
 theorem alloc_ids_fresh (u : User) (ops : List Op) (pre post : List Ev) (id sz : Nat)
     (hs : (exec u init ops).trace = pre ++ .alloc id sz :: post) : id = allocCount pre := by
   have h := (coupled_exec u ops init coupled_init).okPair
